@@ -12,7 +12,12 @@ for d in sorted(os.listdir('/verif/seeded')):
         if len(title) < 25 and len(lines) > 1:
             title = title + ' — ' + lines[1]
         res = m['checks_run']
-        mm = re.search(r'\(((missed-first|first only)[^)]*)\)', res)
-        note = mm.group(1) if mm else ''
-        caught = re.sub(r'\(.*?\)', '', res).replace(':failing-input', ' (failing input)')
-        print('| %s | %s | %s | %s |' % (d, title[:160].replace('|', '/'), caught, note[:220]))
+        if isinstance(res, dict):
+            first, now = res.get('first', ''), res.get('now', '')
+            note = '' if first.startswith('failing-input') else first.replace('missed-first (', 'missed first: ').replace('first only as a model/code disagreement without a failing input (', 'first only a model/code disagreement: ').rstrip(')')
+            caught = now.replace(':failing-input', ' (failing input)').replace(':no-failing-input-found', ' (no-failing-input-found)')
+        else:
+            mm = re.search(r'\(((missed-first|first only)[^)]*)\)', res)
+            note = mm.group(1) if mm else ''
+            caught = re.sub(r'\(.*?\)', '', res).replace(':failing-input', ' (failing input)')
+        print('| %s | %s | %s | %s |' % (d, title[:160].replace('|', '/'), caught, note[:260]))
